@@ -42,3 +42,17 @@ _rvlog = logging.getLogger("rv")
 _rvlog.handlers[:] = [LOG]
 _rvlog.propagate = False
 _rvlog.setLevel(logging.WARNING)
+
+
+def raised_in_rv(exc):
+    """True iff the innermost frame of the exception's traceback is library code (so the
+    exception is the system under test's reaction, not a harness bug)."""
+    tb = exc.__traceback__
+    last = None
+    while tb is not None:
+        last = tb
+        tb = tb.tb_next
+    if last is None:
+        return False
+    fn = os.path.realpath(last.tb_frame.f_code.co_filename)
+    return fn.startswith(os.path.realpath(RV_SRC))
